@@ -273,6 +273,7 @@ Definition SpecStep (dg : content -> string) (before : list (list (string * copy
       (ok (o_code a) <-> IntactSomewhere dg h before)
   | Put h d => ok (o_code a) -> dg d = h /\ IntactSomewhere dg h (o_after a)
   | PutShort h d n => ok (o_code a) -> dg d = h /\ IntactSomewhere dg h (o_after a)
+  | PutCancel h d => ok (o_code a) -> dg d = h /\ IntactSomewhere dg h (o_after a)
   end.
 
 Inductive SpecSteps (dg : content -> string) : list (list (string * copy)) -> list op -> list obs -> Prop :=
@@ -280,8 +281,15 @@ Inductive SpecSteps (dg : content -> string) : list (list (string * copy)) -> li
 | SS_cons before o a ops os : SpecStep dg before o a -> SpecSteps dg (o_after a) ops os ->
                               SpecSteps dg before (o :: ops) (a :: os).
 
+Inductive KeepSteps (dg : content -> string) (names : list string) : list (list (string * copy)) -> list obs -> Prop :=
+| KS_nil before : KeepSteps dg names before []
+| KS_cons before a os :
+    (forall h, In h names -> IntactSomewhere dg h before -> IntactSomewhere dg h (o_after a)) ->
+    KeepSteps dg names (o_after a) os -> KeepSteps dg names before (a :: os).
+
 Definition Spec (c : case) : Prop :=
-  SpecSteps (digest c) (map (listing_of (c_names c)) (c_vols c)) (c_ops c) (c_obs c).
+  SpecSteps (digest c) (map (listing_of (c_names c)) (c_vols c)) (c_ops c) (c_obs c) /\
+  KeepSteps (digest c) (c_names c) (map (listing_of (c_names c)) (c_vols c)) (c_obs c).
 
 Lemma ok2_iff code : ok2 code = true <-> ok code.
 Proof. unfold ok2, ok. apply N.eqb_eq. Qed.
@@ -351,7 +359,7 @@ Qed.
 
 Lemma spec_step_iff dg before o a : spec_step dg before o a = true <-> SpecStep dg before o a.
 Proof.
-  destruct o as [h|h|h d|h d n]; cbn [spec_step SpecStep]; try apply spec_get_iff.
+  destruct o as [h|h|h d|h d n|h d]; cbn [spec_step SpecStep]; try apply spec_get_iff.
   all: rewrite orb_true_iff, negb_true_iff, andb_true_iff, String.eqb_eq, intact_somewhere_iff; split;
     [ intros [A|A] Hok; [apply ok2_iff in Hok; congruence|exact A]
     | intros Himp; destruct (ok2 (o_code a)) eqn:E; [right; apply Himp; apply ok2_iff; exact E|left; reflexivity] ].
@@ -368,14 +376,33 @@ Proof.
     + intros X; inversion X; subst; auto.
 Qed.
 
+Lemma keep_step_iff dg names before after :
+  keep_step dg names before after = true <->
+  (forall h, In h names -> IntactSomewhere dg h before -> IntactSomewhere dg h after).
+Proof.
+  unfold keep_step. rewrite forallb_forall. split.
+  - intros A h Hin Hb. specialize (A h Hin). apply orb_true_iff in A. destruct A as [A|A].
+    + apply negb_true_iff in A. apply intact_somewhere_iff in Hb. congruence.
+    + apply intact_somewhere_iff. exact A.
+  - intros A h Hin. destruct (intact_somewhere dg h before) eqn:E; [|reflexivity]. cbn [negb orb].
+    apply intact_somewhere_iff. apply A; [exact Hin|apply intact_somewhere_iff; exact E].
+Qed.
+Lemma keep_steps_iff dg names : forall os before, keep_steps dg names before os = true <-> KeepSteps dg names before os.
+Proof.
+  induction os as [|a r IH]; intros before; cbn [keep_steps]; [split; [constructor|reflexivity]|].
+  rewrite andb_true_iff, keep_step_iff, IH. split.
+  - intros [A B]. constructor; assumption.
+  - intros X. inversion X; subst. auto.
+Qed.
+
 Lemma spec_b_iff c : spec_b c = true <-> Spec c.
-Proof. apply spec_steps_iff. Qed.
+Proof. unfold spec_b, Spec. rewrite andb_true_iff, spec_steps_iff, keep_steps_iff. tauto. Qed.
 
 (* ------------------------------------------------------------------ *)
 (* the model's own trace satisfies the specification: for every digest function, every set of
    volumes, every request list (block names used by the requests must be among the listed names) *)
 
-Definition op_name (o : op) : string := match o with Get h | Head h | Put h _ | PutShort h _ _ => h end.
+Definition op_name (o : op) : string := match o with Get h | Head h | Put h _ | PutShort h _ _ | PutCancel h _ => h end.
 
 Section M.
 Variable H : content -> string.
@@ -397,7 +424,10 @@ Qed.
 Lemma model_step_spec names s o : In (op_name o) names ->
   SpecStep H (map (listing_of names) (vols s)) o (obs_of names (handle H s o)).
 Proof.
-  intros Hn. destruct o as [h|h|h d|h d n]; cbn [op_name] in Hn; cbn [handle SpecStep obs_of fst snd].
+  intros Hn. destruct o as [h|h|h d|h d n|h d]; cbn [op_name] in Hn; cbn [handle SpecStep obs_of fst snd].
+  5: { cbn [o_code]. intros Hok. exfalso. unfold handle_put_short in Hok.
+       destruct (BlockSize <? clen d); [vm_compute in Hok; discriminate|].
+       destruct (writable (vols s)); vm_compute in Hok; discriminate. }
   4: { (* a PUT whose body does not arrive completely is never acknowledged *)
        cbn [o_code]. intros Hok. exfalso. unfold handle_put_short in Hok.
        destruct (BlockSize <? n); [vm_compute in Hok; discriminate|].
@@ -430,6 +460,93 @@ Proof.
     (destruct (put_loop (w0 :: ws) 0 h d true) as [i v'|[|]]; inversion Epb; subst; [reflexivity|vm_compute in Hok; discriminate|vm_compute in Hok; discriminate]). }
   destruct (handle_put_ok H _ _ _ _ _ Ep Hc) as (A & B & v & C & D). split; [exact A|].
   apply (servable_listing names (vols s') h Hn). exists v, d. unfold servable. auto.
+Qed.
+
+
+(* ---- no request takes an intact copy away ---- *)
+Definition stepR (h : string) (d : content) (v v' : vol) : Prop := v' = v \/ (v' = set_file v h d /\ H d = h).
+Lemma F2_stepR_refl h d vs : Forall2 (stepR h d) vs vs.
+Proof. induction vs; constructor; [left; reflexivity|assumption]. Qed.
+Lemma write_vol_is_set v h d v' : write_vol v h d = WOk v' -> v' = set_file v h d.
+Proof.
+  unfold write_vol. destruct (full v); [discriminate|]. destruct (bad v h); [discriminate|].
+  destruct (assoc (files v) h); intros X; inversion X; reflexivity.
+Qed.
+Lemma set_writable_R h d (Hd : H d = h) : forall vs k w, nth_error (writable vs) k = Some w ->
+  Forall2 (stepR h d) vs (set_writable vs k (set_file w h d)).
+Proof.
+  induction vs as [|v r IH]; intros k w Hk; cbn [set_writable]; [constructor|].
+  cbn [writable filter] in Hk. destruct (ro v) eqn:Er; cbn [negb] in Hk.
+  - constructor; [left; reflexivity|apply IH; exact Hk].
+  - destruct k as [|k]; cbn [nth_error] in Hk.
+    + inversion Hk; subst. constructor; [right; auto|apply F2_stepR_refl].
+    + constructor; [left; reflexivity|apply IH; exact Hk].
+Qed.
+Lemma nth_nth_error {A} (l : list A) k d0 : (k < List.length l)%nat -> nth_error l k = Some (nth k l d0).
+Proof. revert k. induction l as [|a l IH]; intros [|k] Hk; cbn in *; try lia; [reflexivity|apply IH; lia]. Qed.
+
+Lemma put_block_R s h d c s' : put_block H s h d = (c, s') -> Forall2 (stepR h d) (vols s) (vols s').
+Proof.
+  unfold put_block. destruct (intact H h d) eqn:Ei; cbn [negb]; [|intros X; inversion X; apply F2_stepR_refl].
+  apply intact_true in Ei.
+  destruct (compare_and_touch H (writable (vols s)) h d); try (intros X; inversion X; apply F2_stepR_refl).
+  destruct (writable (vols s)) as [|w0 ws] eqn:Ew; [intros X; inversion X; apply F2_stepR_refl|].
+  set (k := N.to_nat (((counter s + 1) mod 4294967296) mod N.of_nat (List.length (w0 :: ws)))).
+  assert (Hk : (k < List.length (w0 :: ws))%nat).
+  { subst k. cbn [List.length]. pose proof (N.mod_upper_bound ((counter s + 1) mod 4294967296) (N.of_nat (S (List.length ws)))). lia. }
+  destruct (write_vol (nth k (w0 :: ws) w0) h d) as [v'| |] eqn:Ewv.
+  - intros X; injection X as <- <-. cbn [vols]. apply write_vol_is_set in Ewv. subst v'.
+    apply (set_writable_R h d Ei). rewrite Ew. apply nth_nth_error. exact Hk.
+  - destruct (put_loop (w0 :: ws) 0 h d true) as [i v'|[|]] eqn:El; intros X; injection X as <- <-; cbn [vols]; try apply F2_stepR_refl.
+    destruct (put_loop_ok _ _ _ _ _ _ _ El) as (w & A & B & _ & _). rewrite Nat.sub_0_r in A.
+    apply write_vol_is_set in B. subst v'. apply (set_writable_R h d Ei). rewrite Ew. exact A.
+  - destruct (put_loop (w0 :: ws) 0 h d true) as [i v'|[|]] eqn:El; intros X; injection X as <- <-; cbn [vols]; try apply F2_stepR_refl.
+    destruct (put_loop_ok _ _ _ _ _ _ _ El) as (w & A & B & _ & _). rewrite Nat.sub_0_r in A.
+    apply write_vol_is_set in B. subst v'. apply (set_writable_R h d Ei). rewrite Ew. exact A.
+Qed.
+
+Lemma lookup_set_file_other v h d h' : h' <> h -> lookup (set_file v h d) h' = lookup v h'.
+Proof.
+  intros Hn. unfold lookup. assert (E : bad (set_file v h d) h' = bad v h') by reflexivity. rewrite E.
+  destruct (bad v h'); [reflexivity|]. cbn [set_file files assoc].
+  destruct (String.eqb_spec h h'); [congruence|reflexivity].
+Qed.
+
+Lemma stepR_servable h d (Hlen : clen d <= BlockSize) h' : forall vs vs', Forall2 (stepR h d) vs vs' ->
+  (exists v x, In v vs /\ servable H h' v x) -> exists v x, In v vs' /\ servable H h' v x.
+Proof.
+  induction 1 as [|v v' r r' HR _ IH]; intros (u & x & Hin & Hs); [destruct Hin|].
+  destruct Hin as [->|Hin].
+  - destruct HR as [->|[-> Hd]]; [exists u, x; split; [left; reflexivity|exact Hs]|].
+    destruct (String.eqb_spec h' h) as [->|Hn].
+    + destruct Hs as (A & _ & _). exists (set_file u h d), d. split; [left; reflexivity|].
+      split; [|auto]. apply lookup_set_file_same. unfold lookup in A. destruct (bad u h); [discriminate|reflexivity].
+    + exists (set_file u h d), x. split; [left; reflexivity|]. destruct Hs as (A & B & D).
+      split; [rewrite lookup_set_file_other by exact Hn; exact A|auto].
+  - destruct IH as (v2 & x2 & A & B); [eauto|]. exists v2, x2. split; [right; exact A|exact B].
+Qed.
+
+Lemma handle_keeps s o h' :
+  (exists v x, In v (vols s) /\ servable H h' v x) -> exists v x, In v (vols (snd (handle H s o))) /\ servable H h' v x.
+Proof.
+  intros Hs. destruct o as [h|h|h d|h d n|h d]; cbn [handle snd]; try exact Hs.
+  unfold handle_put. destruct (BlockSize <? clen d) eqn:El; [exact Hs|]. apply N.ltb_ge in El.
+  destruct (writable (vols s)); [exact Hs|].
+  destruct (put_block H s h d) as [c s'] eqn:Ep. cbn [snd].
+  eapply stepR_servable; [exact El|eapply put_block_R; exact Ep|exact Hs].
+Qed.
+
+(* the model's own trace keeps every intact copy retrievable, for every digest function, volume set
+   and request list *)
+Theorem model_keeps names : forall ops s,
+  KeepSteps H names (map (listing_of names) (vols s)) (map (obs_of names) (run H s ops)).
+Proof.
+  induction ops as [|o r IH]; intros s; cbn [run map]; [constructor|].
+  destruct (handle H s o) as [a s'] eqn:Eh. cbn [map]. constructor.
+  - intros h Hin Hb. cbn [obs_of o_after snd].
+    apply (servable_listing names (vols s') h Hin). apply (servable_listing names (vols s) h Hin) in Hb.
+    replace s' with (snd (handle H s o)) by (rewrite Eh; reflexivity). apply handle_keeps. exact Hb.
+  - cbn [obs_of o_after snd]. apply IH.
 Qed.
 
 Theorem model_meets_spec names : forall ops s,
